@@ -36,7 +36,41 @@ Fixpoint split_on (p : Z -> bool) (s : text) : list text :=
   end.
 
 Definition nonempty (t : text) : bool := match t with [] => false | _ => true end.
-Definition split_ws (s : text) : list text := filter nonempty (split_on is_ws s).   (* line.rstrip("\r\n").split() *)
+(* str.split() also splits at the non-ASCII white space of Unicode: U+0085, U+00A0, U+1680, U+2000..U+200A, U+2028, U+2029,
+   U+202F, U+205F, U+3000.  On the UTF-8 bytes of a (valid) file: the number of bytes of such a character encoded at the head
+   of s, 0 if there is none.  All of them start with one of the lead bytes C2, E1, E2, E3. *)
+Definition uws_len (s : text) : nat :=
+  match s with
+  | a :: b :: r =>
+      if (a =? 194) && ((b =? 133) || (b =? 160)) then 2%nat
+      else match r with
+           | c :: _ =>
+               if ((a =? 225) && (b =? 154) && (c =? 128))
+                  || ((a =? 226) && (b =? 128) && (((128 <=? c) && (c <=? 138)) || (c =? 168) || (c =? 169) || (c =? 175)))
+                  || ((a =? 226) && (b =? 129) && (c =? 159))
+                  || ((a =? 227) && (b =? 128) && (c =? 128))
+               then 3%nat else 0%nat
+           | [] => 0%nat
+           end
+  | _ => 0%nat
+  end.
+
+(* every non-ASCII white-space character replaced by one space; `skip` = bytes of the current one still to drop *)
+Fixpoint norm_ws_aux (skip : nat) (s : text) : text :=
+  match s with
+  | [] => []
+  | a :: t =>
+      match skip with
+      | S k => norm_ws_aux k t
+      | O => match uws_len s with
+             | O => a :: norm_ws_aux 0 t
+             | S k => 32 :: norm_ws_aux k t
+             end
+      end
+  end.
+Definition norm_ws (s : text) : text := norm_ws_aux 0 s.
+
+Definition split_ws (s : text) : list text := filter nonempty (split_on is_ws (norm_ws s)).   (* line.rstrip("\r\n").split() *)
 Definition lines (s : text) : list text := split_on is_nl s.
 
 (* smiles_generator: (smiles, name) for every line with at least two fields *)
@@ -96,7 +130,13 @@ Definition dict_to_smiles (d : sdict) : text := iter_to_smiles (esort d).
 Definition entries_eqb (a b : list (text * text)) : bool := list_eqb (pair_eqb text_eqb text_eqb) a b.
 
 (* a token the reader returns unchanged: non-empty and free of white space *)
-Definition good_token (t : text) : Prop := t <> [] /\ forallb (fun c => negb (is_ws c)) t = true.
+(* a byte that may start the UTF-8 encoding of a non-ASCII white-space character *)
+Definition is_uws_lead (c : Z) : bool := (c =? 194) || (c =? 225) || (c =? 226) || (c =? 227).
+(* a sufficient byte-level condition: no ASCII white space and none of the four lead bytes (so names may use e.g. Latin-1
+   letters U+00C0.. (lead C3), Greek, Cyrillic, CJK from U+4000, but not U+0080..U+00BF, U+1000..U+3FFF) *)
+Definition good_token (t : text) : Prop :=
+  t <> [] /\ forallb (fun c => negb (is_ws c) && negb (is_uws_lead c)) t = true.
+Definition good_token_b (t : text) : bool := nonempty t && forallb (fun c => negb (is_ws c) && negb (is_uws_lead c)) t.
 
 (* ================================================================================================================== *)
 (* 2. energy codec                                                                                                     *)
@@ -179,6 +219,12 @@ Definition get_conformer_energies (p : props) : result (option (list Q)) :=
 (* add_conformer_energies_to_mol *)
 Definition add_conformer_energies (p : props) (es : list Q) : props := pset K_CE (PEn (join_energies es)) p.
 
+(* no line feed in a string value: what the SD format can carry on one title line / in a data item without RDKit editing it *)
+Definition text_safe (t : text) : bool := forallb (fun c => negb (c =? 10)) t.
+Definition pval_safe (v : pval) : bool := match v with PStr s => text_safe s | _ => true end.
+Definition sd_safe (p : props) : bool := forallb (fun e => pval_safe (snd e)) p.
+Definition title_ok (p : props) : bool := match pget K_NAME p with Some (PStr s) => text_safe s | _ => true end.
+
 Definition limit_active (l : option Z) : bool := match l with None => false | Some n => negb (n =? -1) end.
 Definition limit_val (l : option Z) : Z := match l with None => 0 | Some n => n end.
 
@@ -186,6 +232,9 @@ Section SD.
   Variable G : Type.
   Variable C : Type.
   Variable rt4 : C -> C.
+  (* what a property map becomes through SDWriter + supplier; assumed (Section hypothesis of the theorems) to be the identity
+     on maps without line feeds (`sd_safe`): RDKit drops a value containing a blank line and strips a trailing line feed *)
+  Variable codec : props -> props.
 
   Record conformer := mkconf { c_id : Z; c_xyz : C }.
   Record mol := mkmol { m_graph : G; m_props : props; m_confs : list conformer }.
@@ -242,15 +291,20 @@ Section SD.
   Definition reader_props (p : props) : props :=
     match pget K_NAME p with Some _ => p | None => pset K_NAME (PStr []) p end.
 
+  Definition decode_rec (r : sdrec) : sdrec := mkrec (r_graph r) (codec (r_props r)) (r_xyz r).
+
   (* mol_from_sdf; `fallback` = os.path.basename(sdf_file).split(".sdf")[0] *)
   Definition mol_from_sdf (file : list sdrec) (conf_num : option Z) (fallback : text) : result mol :=
     let taken := match conf_num with
                  | None => file
                  | Some n => if n <? 0 then file else firstn (Z.to_nat n) file      (* `if i == conf_num: break` *)
                  end in
-    match taken with
+    match map decode_rec taken with
     | [] => Raises EOther                                                           (* AttributeError on None *)
     | r0 :: _ =>
+        (* a title containing a line feed shifts the mol block: the supplier returns None, `None.HasProp` raises AttributeError *)
+        if negb (forallb (fun r => title_ok (r_props r)) taken) then Raises EOther else
+        let taken := map decode_rec taken in
         rbind (read_energies taken) (fun es =>
           let p := reader_props (r_props r0) in
           let p := match pget K_NAME p with Some _ => p | None => pset K_NAME (PStr fallback) p end in
@@ -274,6 +328,6 @@ Definition mol_close (tol : Q) (a b : cmol) : bool :=
 (* mol_to_sdf then mol_from_sdf: the molecule after the write and the molecule read back *)
 Definition write_read (m : cmol) (wl rl : option Z) (fallback : text) : result (cmol * cmol) :=
   rbind (mol_to_sdf Z (list Q) m wl) (fun mr =>
-    rbind (mol_from_sdf Z (list Q) rt4c (snd mr) rl fallback) (fun r => Ok (fst mr, r))).
+    rbind (mol_from_sdf Z (list Q) rt4c (fun p => p) (snd mr) rl fallback) (fun r => Ok (fst mr, r))).
 Definition wr_close (tol : Q) (a b : cmol * cmol) : bool := mol_close 0 (fst a) (fst b) && mol_close tol (snd a) (snd b).
 Definition sdict_result_eqb (a b : result sdict) : bool := result_eqb entries_eqb a b.
